@@ -40,7 +40,7 @@ def run(ctx, res):
             t = Lark(w['grammar'], parser='earley', priority='invert').parse(w['text'])
             if t.children[0].data != 'b':
                 res.violation('regression of fixed finding F16: ' + f['what'], w)
-    jobs, outs = forestlib.forest_stream(ctx, 5, {'c05'}, 260, 6000, prio=True)
+    jobs, outs = forestlib.forest_stream(ctx, 5, {'c05'}, 1500, 20000, prio=True)
     for job, rec in problems(res, jobs, outs, 'parsing with ambiguity=resolve'):
         if 'gerr' in rec:
             res.count('grammar_error'); continue
